@@ -1,20 +1,36 @@
 (* C06 — Loop iteration limit bounds nested iteration.  Property theorems only.
-   All statements are about Limits.run_prog v for EVERY variant v with is_repaired v (both repairs present:
-   .work/fixes/C06-loop-carry.patch, C08-zero-limits.patch; v_item - whether render-for copies one context or one
-   per item - is left free).  Limits.repaired, which the correspondence run compares with the engine, is one. *)
+   All statements are about Limits.run_prog v md for EVERY variant v with is_repaired v (the repairs present:
+   .work/fixes/C06-loop-carry.patch, C08-zero-limits.patch, C07-namespace-rollback.patch; v_item - whether render-for
+   copies one context or one per item - is left free) and, where md is quantified, for every mode
+   (Strict | Warn | Lax).  Limits.repaired, which the correspondence run compares with the engine, is one such v.
+   The frame discipline of the model (a loop is on the loop stack exactly while its block runs) is that of the code
+   after .work/fixes/C06-loop-stack-leak.patch. *)
 From LiquidVerif Require Import Prelude PyPrims Limits Limits_Proofs Limits_Sim_Proofs.
 Local Open Scope Z_scope.
 
-(* for every nest (any depth, any lengths), every loop limit L >= 1 and whatever the other four limits are:
-   if the render completes, every text leaf it executed was executed while the TRUE product of the lengths of
-   all enclosing repeating constructs (for, tablerow, include-with-array, render-for; through include, render,
-   macro call, capture, ifchanged) was <= L.  s_leaf is the ghost log of that product at every leaf execution. *)
-Theorem C06_bound : forall v lim L, is_repaired v -> l_loop lim = Some L -> forall main sizes s,
+(* for every nest (any depth, any lengths), every loop limit L >= 1, whatever the other four limits are and IN EVERY
+   MODE: if the render completes, every text leaf it executed - including those of top-level nodes whose error was
+   later dropped in WARN/LAX mode - was executed while the TRUE product of the lengths of all enclosing repeating
+   constructs (for, tablerow, include-with-array, render-for; through include, render, macro call, capture,
+   ifchanged) was <= L.  s_leaf is the ghost log of that product at every leaf execution. *)
+Theorem C06_bound : forall v md lim L, is_repaired v -> l_loop lim = Some L -> forall main sizes s,
   (1 <= L)%N ->
-  run_prog v lim main sizes = LOk s ->
+  run_prog v md lim main sizes = LOk s ->
   Forall (fun p => (p <= L)%N) (s_leaf s).
-Proof. exact run_leaf_bound. Qed.
+Proof. exact run_leaf_bound_ok. Qed.
 Print Assumptions C06_bound.
+
+(* the same for whatever the render returns: also the state carried by an error that escapes (STRICT: any error;
+   WARN/LAX: only the outermost context-depth check) has no leaf executed above the limit.  This is what C06 means
+   when errors are suppressed: suppression never lets a block run while the product exceeds L. *)
+Theorem C06_bound_all_outcomes : forall v md lim L, is_repaired v -> l_loop lim = Some L -> forall main sizes,
+  (1 <= L)%N ->
+  match run_prog v md lim main sizes with
+  | LOk s | LErr _ s => Forall (fun p => (p <= L)%N) (s_leaf s)
+  | LFuel => True
+  end.
+Proof. exact run_leaf_bound. Qed.
+Print Assumptions C06_bound_all_outcomes.
 
 (* the invariant behind it: in every context the product the engine computes (loop stack x carry) equals the
    true product; it is re-established by every construct for the context its block runs in *)
@@ -27,30 +43,29 @@ Proof.
 Qed.
 Print Assumptions C06_bookkeeping_is_true_product.
 
-(* a completed render contains no reached nest whose lengths multiply to more than L
+(* STRICT: a completed render contains no reached nest whose lengths multiply to more than L
    (maxprod_list: declarative maximum over the nest; a zero length cuts its subtree) *)
 Theorem C06_completed_within_limit : forall v lim L, is_repaired v -> l_loop lim = Some L -> forall main sizes s,
   (1 <= L)%N ->
-  run_prog v lim main sizes = LOk s -> (maxprod_list 1 main <= L)%N.
+  run_prog v Strict lim main sizes = LOk s -> (maxprod_list 1 main <= L)%N.
 Proof. exact run_maxprod. Qed.
 Print Assumptions C06_completed_within_limit.
 
-(* a nest whose lengths multiply to more than L raises LoopIterationLimitError: whenever the render completes
+(* STRICT: a nest whose lengths multiply to more than L raises LoopIterationLimitError: whenever the render completes
    with the loop limit removed (the other limits unchanged) and some reached nest multiplies to more than L *)
 Theorem C06_raises : forall v, is_repaired v -> forall lim L main sizes s,
   l_loop lim = Some L -> (1 <= L)%N ->
-  run_prog v (with_loop lim None) main sizes = LOk s ->
+  run_prog v Strict (with_loop lim None) main sizes = LOk s ->
   (L < maxprod_list 1 main)%N ->
-  run_prog v lim main sizes = LErr XLoop.
+  exists se, run_prog v Strict lim main sizes = LErr XLoop se.
 Proof. exact run_loop_raises. Qed.
 Print Assumptions C06_raises.
 
-(* ... and ONLY then: if no reached nest multiplies to more than L, the loop limit changes nothing - the render
-   under limit L is, outcome for outcome, the render with the loop limit removed.  With C06_raises this
-   characterises the limit exactly by the largest product of nested lengths. *)
-Theorem C06_no_false_alarm : forall v lim L, is_repaired v -> l_loop lim = Some L -> forall main sizes,
+(* ... and ONLY then, in every mode: if no reached nest multiplies to more than L, the loop limit changes nothing -
+   the render under limit L is, outcome for outcome, the render with the loop limit removed. *)
+Theorem C06_no_false_alarm : forall v md lim L, is_repaired v -> l_loop lim = Some L -> forall main sizes,
   (1 <= L)%N -> (maxprod_list 1 main <= L)%N ->
-  run_prog v lim main sizes = run_prog v (with_loop lim None) main sizes.
+  run_prog v md lim main sizes = run_prog v md (with_loop lim None) main sizes.
 Proof. exact run_no_false_alarm. Qed.
 Print Assumptions C06_no_false_alarm.
 
@@ -60,21 +75,27 @@ Print Assumptions C06_no_false_alarm.
 Definition lim50 : limits := {| l_loop := Some 50%N; l_out := None; l_ns := None; l_depth := 30; l_nest := 30 |}.
 Theorem C06_unrepaired_refuted :
   forall outer, In outer [Tablerow 10; IncludeArr 10; RenderFor 10] ->
-  exists s, run_prog unrepaired lim50 [outer [For 10 [Text [120%N]]]] [] = LOk s /\ In 100%N (s_leaf s)
-            /\ run_prog repaired lim50 [outer [For 10 [Text [120%N]]]] [] = LErr XLoop.
+  exists s, run_prog unrepaired Strict lim50 [outer [For 10 [Text [120%N]]]] [] = LOk s /\ In 100%N (s_leaf s)
+            /\ exists se, run_prog repaired Strict lim50 [outer [For 10 [Text [120%N]]]] [] = LErr XLoop se.
 Proof.
-  intros outer [<-|[<-|[<-|[]]]]; eexists; (split; [vm_compute; reflexivity|]); split; vm_compute; auto.
+  intros outer [<-|[<-|[<-|[]]]]; eexists; (split; [vm_compute; reflexivity|]); (split; [vm_compute; auto|eexists; vm_compute; reflexivity]).
 Qed.
 Print Assumptions C06_unrepaired_refuted.
 
 (* non-vacuity: hypotheses of C06_bound / C06_raises are satisfiable, and products multiply through partials and macros *)
 Example C06_nonvacuous_completes :
-  exists s, run_prog repaired lim50 [IncludeArr 5 [Tablerow 2 [Call [RenderFor 5 [Text [120%N]]]]]] [] = LOk s
+  exists s, run_prog repaired Strict lim50 [IncludeArr 5 [Tablerow 2 [Call [RenderFor 5 [Text [120%N]]]]]] [] = LOk s
             /\ length (s_leaf s) = 50%nat /\ maxprod_list 1 [IncludeArr 5 [Tablerow 2 [Call [RenderFor 5 [Text [120%N]]]]]] = 50%N.
 Proof. eexists. split; [vm_compute; reflexivity|]. split; vm_compute; reflexivity. Qed.
 
 Example C06_nonvacuous_raises :
-  (exists s, run_prog repaired (with_loop lim50 None) [For 5 [Render [Tablerow 2 [Call [RenderFor 6 [Text [120%N]]]]]]] [] = LOk s) /\
+  (exists s, run_prog repaired Strict (with_loop lim50 None) [For 5 [Render [Tablerow 2 [Call [RenderFor 6 [Text [120%N]]]]]]] [] = LOk s) /\
   maxprod_list 1 [For 5 [Render [Tablerow 2 [Call [RenderFor 6 [Text [120%N]]]]]]] = 60%N /\
-  run_prog repaired lim50 [For 5 [Render [Tablerow 2 [Call [RenderFor 6 [Text [120%N]]]]]]] [] = LErr XLoop.
-Proof. split; [eexists; vm_compute; reflexivity|]. split; vm_compute; reflexivity. Qed.
+  exists se, run_prog repaired Strict lim50 [For 5 [Render [Tablerow 2 [Call [RenderFor 6 [Text [120%N]]]]]]] [] = LErr XLoop se.
+Proof. split; [eexists; vm_compute; reflexivity|]. split; [vm_compute; reflexivity|eexists; vm_compute; reflexivity]. Qed.
+
+(* LAX: the over-limit loop is abandoned with its top-level node (no leaf of it runs), the next node still renders *)
+Example C06_lax_example :
+  exists s, run_prog repaired Lax lim50 [For 10 [Tablerow 10 [Text [120%N]]]; Text [121%N]] [] = LOk s
+            /\ buf_text (s_buf s) = [121%N] /\ s_leaf s = [1%N].
+Proof. eexists. split; [vm_compute; reflexivity|]. split; vm_compute; reflexivity. Qed.
